@@ -275,14 +275,66 @@ def bankrupt_case(spec):
     return ("ok", viols, 1 if neg else 0)
 
 
+def fresh_report_case(item):
+    """a report read FIRST on a finished backtest (nothing else has been read): the positions report has
+    every date and agrees with the node histories read afterwards - also for a ticker that was closed for
+    good well before the end; a Result over several backtests of ONE strategy hands out each backtest's own
+    transaction list by backtest name"""
+    import pandas as pd
+
+    bt = rt.bt()
+    A = bt.algos
+    what, closed, integer = item
+    data = R.table("d12", "exact", late=False)
+    idx = data.index
+    closes = pd.DataFrame({"date": [idx[3]]}, index=[closed])
+
+    def strategy():
+        return bt.Strategy("s", [A.ClosePositionsAfterDates("closes"), A.RunWeekly(), A.SelectAll(), A.SelectActive(), A.WeighEqually(), A.Rebalance()], [bt.Security(c) for c in data.columns])
+
+    viols = []
+    if what == "positions_first":
+        b = bt.Backtest(strategy(), data, integer_positions=integer, progress_bar=False, additional_data={"closes": closes})
+        b.run()
+        rep = b.positions  # the very first read
+        got = {str(c): ([str(x) for x in rep.index], [float(x) for x in rep[c].values]) for c in rep.columns}
+        hist = R.run_histories(b)
+        labels = hist["s"]["values"][0]
+        for c in data.columns:
+            exp = hist["s>" + c]["positions"][1]
+            g = got.get(c)
+            if g is None or g[0] != labels or any(not (abs(x - y) <= 1e-9 or (x != x and y != y)) for x, y in zip(g[1], exp)):
+                viols.append({"rule": "positions_report_read_first", "expected": {"ticker": c, "dates": len(labels), "positions": exp}, "observed": None if g is None else {"dates": len(g[0]), "positions": g[1]}})
+                break
+    else:
+        s = strategy()
+        b1 = bt.Backtest(s, data, name="other", initial_capital=5e5, integer_positions=integer, progress_bar=False, additional_data={"closes": closes})
+        b2 = bt.Backtest(s, data, initial_capital=1e6, integer_positions=integer, progress_bar=False, additional_data={"closes": closes})
+        import contextlib, io
+
+        with contextlib.redirect_stderr(io.StringIO()):
+            res = bt.run(b1, b2)
+        for name, b in (("other", b1), ("s", b2)):
+            exp = b.strategy.get_transactions()
+            got = res.get_transactions(name)
+            e = [(str(k[0]), str(k[1]), float(r["price"]), float(r["quantity"])) for k, r in exp.iterrows()]
+            g = [(str(k[0]), str(k[1]), float(r["price"]), float(r["quantity"])) for k, r in got.iterrows()]
+            if e != g:
+                viols.append({"rule": "result_transactions_by_backtest_name", "expected": {"backtest": name, "transactions": e[:4], "count": len(e)}, "observed": {"transactions": g[:4], "count": len(g)}})
+                break
+    return ("ok", viols, 1)
+
+
 def replay(case):
+    if case.get("driver") == "fresh_report":
+        return fresh_report_case(tuple(case["item"]))[1]
     if case.get("driver") == "bankrupt":
         return bankrupt_case(case["spec"])[1]
     return run_case(case["spec"])[1]
 
 
 def run(ctx):
-    ctx.rule = "every finished run of the run family (all stock algos; flat / nested / shared tickers / 3 levels; spreads, commissions, multipliers) plus runs whose root value goes negative; a run is non-trivial if it executed at least one trade"
+    ctx.rule = "every finished run of the run family (all stock algos; flat / nested / shared tickers / 3 levels; spreads, commissions, multipliers) plus runs whose root value goes negative; the positions report read before anything else; a Result over two backtests of one strategy queried by backtest name; a run is non-trivial if it executed at least one trade"
     ctx.assumptions += [
         "reports are recomputed from the recorded node histories only; execution price = mid +/- half spread per unit",
         "round trip: positions always; values on flat trees without flows (nested trees net several holders' trades of one ticker)",
@@ -317,6 +369,12 @@ def run(ctx):
         ctx.extra.setdefault("run_family", []).append({"build": kind, "runs": len(use), "completed": ok})
         bsp = [s for s in c16.specs("quick", ctx.seed) if s["tree"] in ("flat", "nested") and s.get("scale", 1.0) == 1.0][:: 7 if ctx.tier == "quick" else 2]
         nneg = 0
+        fr = [(w, c, i) for w in ("positions_first", "result_by_name") for c in ("a", "b", "d") for i in (True, False)]
+        for item, (status, viols, n) in ctx.run(kind, MOD, "fresh_report_case", fr, chunksize=2):
+            ctx.add(states=1, transitions=n, traces_validated_against_impl=n, evaluations=n)
+            ctx.mark(("fresh", kind) + tuple(map(str, item)))
+            for v in viols:
+                ctx.violation(dict(v, build=kind, module=MOD, case={"driver": "fresh_report", "item": list(item)}))
         for spec, (status, viols, neg) in ctx.run(kind, MOD, "bankrupt_case", bsp, chunksize=8):
             ctx.add(transitions=1, traces_validated_against_impl=1, evaluations=1)
             if status == "ok":
